@@ -380,7 +380,7 @@ func main() {
 			if tier == "thorough" {
 				return driver.Plan{Random: 1500000, WallLimit: 25 * time.Minute}
 			}
-			return driver.Plan{Random: 60000, WallLimit: 5 * time.Minute}
+			return driver.Plan{Random: 600000, WallLimit: 5 * time.Minute}
 		},
 		RunOne: runOne,
 	})
